@@ -5,6 +5,7 @@ import Cirbo.Model.Traverse
 import Cirbo.Model.Tseytin
 import Cirbo.Model.Codec
 import Cirbo.Model.Func
+import Cirbo.Model.Bench
 /-! `cirbo_model`: one JSON request per input line, one JSON response per output line. -/
 open Lean Cirbo Driver
 
@@ -187,6 +188,12 @@ def handle (j : Json) : Except String Json := do
     let F := if binary then FRep.fromIntBinary (fun a b => vals.getD (a * 2 ^ inLen + b) 0) inLen outLen be
              else FRep.fromIntUnary (fun a => vals.getD a 0) inLen outLen be
     pure (ok (Json.arr ((allInputs F.n).map (fun x => jBs (F.ev x))).toArray))
+  | "format_circuit" => do
+    let c ← getCircuit j
+    pure (ok (Json.str (String.ofList (formatCircuit c))))
+  | "parse_bench" => do
+    let t ← (← j.getObjVal? "text").getStr?
+    pure (ofExcept jCircuit (parseBench t.toList))
   | "optable_issues" => pure (ok (jStrs opTableIssues))
   | "check_wf" => do
     let c ← getCircuit j
